@@ -550,6 +550,14 @@ func (c *codegen) analyzeFuncAndGlobalVarUsage() funcUsage {
 					typeInfo:  pkg.TypesInfo,
 					currPkg:   pkg,
 				})
+			} else { // var v, ok = M[k] with only ok used: the single value is still evaluated.
+				usedExpressions = append(usedExpressions, nodeContext{
+					node:      valSpec.Values[0],
+					path:      fd.path,
+					importMap: fd.importMap,
+					typeInfo:  pkg.TypesInfo,
+					currPkg:   pkg,
+				})
 			}
 		}
 		c.pickVarsFromNodes(usedExpressions, func(name string) {
